@@ -27,7 +27,7 @@ def spec():
     return {
         'prop_files': a['prop_files'] + b['prop_files'],
         'coq_targets': a['coq_targets'] + b['coq_targets'],
-        'closure_dirs': sorted(set(a['closure_dirs'] + b['closure_dirs'])),
+        'closure_dirs': sorted(set(a['closure_dirs'] + b['closure_dirs'] + ['theories/C10/LeafTie.v', 'theories/C10/LeafTieMsgpack.v', 'theories/Gen/Leaf2.v', 'theories/Base/Word.v'])),
         'harnesses': hs,
         'assumptions': a.get('assumptions', []) + b.get('assumptions', []),
         'trusted_extra': a.get('trusted_extra', []) + b.get('trusted_extra', []),
@@ -43,6 +43,6 @@ def main(chk):
 MANIFEST = {
     'category': 'proof',
     'technique': 'Coq proofs relating executable models of the cbor and msgpack drivers to decoders/encoders written independently from RFC 8949 and the MessagePack specification; vm_compute correspondence of the driver models against the real Encoder/Decoder (all 256 first bytes, reference-encoder alternatives, mutated and random inputs); exhaustive half-float sweep',
-    'text': 'Theorems C10_cbor_in / C10_cbor_enc_wellformed / C10_cbor_out_partial / C10_half and C10_msgpack_out / C10_msgpack_in (see Properties/C10_cbor.v, C10_msgpack.v; partial or refuted forms are named as such there) hold for every item and every permitted serialisation, unbounded; the driver models are tied to cbor.go/msgpack.go by running them on what the real Encoder/Decoder did, the spec models are independent Gallina transcriptions of the specifications.',
+    'text': 'Theorems C10_cbor_in / C10_cbor_enc_wellformed / C10_cbor_out_partial / C10_half / C10_half_src_tie / C10_cbor_bigen_src_tie and C10_msgpack_out / C10_msgpack_in / C10_msgpack_bigen_src_tie (see Properties/C10_cbor.v, C10_msgpack.v; partial or refuted forms are named as such there) hold for every item and every permitted serialisation, unbounded; the driver models are tied to cbor.go/msgpack.go by running them on what the real Encoder/Decoder did, the spec models are independent Gallina transcriptions of the specifications. Source ties (C10/LeafTie.v, C10/LeafTieMsgpack.v over Gen/Leaf2.v, re-translated from helper.go on every run by harness/cmd/srcgen/leaf2.go): the hand-written half_to_f32 / f32_to_half of the cbor model and be_put / be_get of both models are PROVED equal to the translated halfFloatToFloatBits (all 65536 inputs; its loop never runs out of fuel >= 11), floatToHalfFloatBits (all 2^32 inputs), bigen.PutUint16/32/64 and bigen.Uint16/32/64 (all inputs), so a behaviour-changing edit of one of these Go functions breaks a proof obligation.',
     'note': 'Trusted: Coq kernel; the hand-written driver models (correspondence-checked); the Gallina transcriptions of RFC 8949 / the MessagePack spec; reference encoders in the harness; hardware float conversions. See the assumptions list in the evidence for what each model leaves out.',
 }
